@@ -53,6 +53,9 @@ def _check_main(run, P):
     run.do(_fields, run, P)
     run.do(_clash, run, P)
     run.do(_ids, run, P)
+    from .c01 import _alias
+    from . import c10 as _c10
+    _alias(run, "C10.cycle", "C16.ids", lambda: _c10._edges_kept(run, P))
     run.do(_agree, run, P)
     run.do(_phases, run, P)
     # the read sets clash detection works on, and the rebuilding of mapped fields
